@@ -96,6 +96,9 @@ impl Glyph {
             },
             |_| bg,
         );
+        if size.height == 0 || size.width == 0 {
+            return Image::new(surf); // nothing to draw on, the frame and the scene index pixels
+        }
 
         // draw frame
         let scene_bbox = if let Some(frame) = &self.inner.frame {
